@@ -22,7 +22,8 @@ def run(R):
               "(0..rank-1) or from the end (-rank..-1), as python int or numpy integer; or last-axis "
               "broadcasting), prefixes ''/milli/micro/nano, plain arrays, plain arrays with irr_units=/flux_units=, pint quantities "
               "in the canonical units (I, E, nm) and in compatible other units (mW/m^2/nm, uW/cm^2/nm, W/m^2/um, kW.., microE, "
-              "umol/m^2/s/nm, mol/cm^2/s/nm, ..; wavelengths in um, m, mm, angstrom), both directions, the numeric round trip and "
+              "umol/m^2/s/nm, mol/cm^2/s/nm, ..; wavelengths in um, m, mm, angstrom), both directions, return_units= left at its default or stated True / False (for plain and "
+              "unit-carrying spectra, with and without axis=, every prefix: the physical value of whatever container comes back is the law), the numeric round trip and "
               "the returned (prefixed) quantity fed back into the inverse; identically-zero spectra at some pixels (the first pixel included); unit-less spectrum arrays as float64, whole-number counts in uint16/int32/int64, Fortran order, strided view or nested list (the model receives the values); the model receives the physical values in I/E/nm; compared with the exact-rational model (exact SI constants) at rtol 1e-12. Non-trivial: "
               ">=2 wavelengths with distinct values and a non-constant spectrum.")
     RT = 1e-12
@@ -151,6 +152,15 @@ def run(R):
 
         other = str(rng.choice([q for q in PREF if q != pre]))
         c["called_before_with_prefix"] = other
+        # the return_units= option of the main call (own stream): left at its default (a quantity comes back iff the spectrum carries
+        # units), or stated explicitly True / False - for plain and unit-carrying spectra alike, with and without axis=, with every
+        # prefix. Whatever container comes back (a quantity, or plain numbers which by contract are expressed in the requested prefixed
+        # unit - np.apply_along_axis may strip a quantity), its physical value is the law.
+        ret = str(R.rng(7, k).choice(["default", "default", "True", "False"]))
+        c["return_units"] = ret
+        R.count("return_units:%s" % ret)
+        R.count("return_units:%s:%s:%s" % (ret, "axis" if axis_arg is not None else "no-axis", "prefixed" if pre else "no-prefix"))
+        rkw = {} if ret == "default" else {"return_units": ret == "True"}
 
         def impl():
             # history: the same grid was converted with another prefix just before (results must not depend on it)
@@ -160,9 +170,11 @@ def run(R):
             ukw = {}
             if ukind == "units-argument":
                 ukw = {"irr_units": sunit} if direction == "irr2flux" else {"flux_units": sunit}
-            o = fn(arg, lamarg, prefix=pre, axis=axis_arg, **ukw)
+            o = fn(arg, lamarg, prefix=pre, axis=axis_arg, **ukw, **rkw)
             o_num = fn(spec_call, lamv, prefix=pre, axis=axis_arg, return_units=False)
-            mag = o.magnitude if hasattr(o, "magnitude") else o
+            # default: the magnitude as returned (the unit is the prefixed one); explicit return_units: the physical value, expressed
+            # in the requested prefixed unit
+            mag = (o.magnitude if ret == "default" else o.to(out_unit).magnitude) if hasattr(o, "magnitude") else o
             kw = {"flux_units": out_unit} if direction == "irr2flux" else {"irr_units": out_unit}
             rt = back(np.asarray(o_num), lamv, axis=axis_arg, return_units=False, **kw)
             # the quantity that came out (in the prefixed unit) fed back as it is: the inverse must recover the spectrum
@@ -212,7 +224,11 @@ def run(R):
                 bad = bad or "round trip does not recover the spectrum: %s vs %s" % (rt.reshape(-1)[:4].tolist(), S[:4].tolist())
             if rtq is not None and (rtq.shape != np.shape(c["spectrum"]) or not np.allclose(rtq.reshape(-1), S, rtol=1e-12, atol=0)):
                 bad = bad or "the returned quantity fed back into the inverse conversion does not recover the spectrum: %s vs %s" % (rtq.reshape(-1)[:4].tolist(), S[:4].tolist())
-            if has_u != c["units"]:
+            if c["return_units"] == "default" and has_u != c["units"]:
                 bad = bad or "return_units default: has units=%s for input with units=%s" % (has_u, c["units"])
+            if c["return_units"] == "False" and has_u:
+                bad = bad or "return_units=False returned a quantity"
+            if c["return_units"] == "True" and c["axis"] is None and not has_u:
+                bad = bad or "return_units=True (no axis=) returned plain numbers"
         if bad:
             R.failB(dict(c, impl=num, model=[rs(x) for x in m]), bad, sig)
